@@ -92,7 +92,7 @@ func drawXZCase(t *rapid.T) caseXZ {
 	forceSingle := false
 	if maxTotal >= 400000 {
 		rnd := func(lo, hi int) gen.Seg {
-			return gen.Seg{Kind: "random", Len: rapid.IntRange(lo, hi).Draw(t, "rawlen"), K: rapid.SampledFrom([]int{0, 0, 0, 226, 230, 234, 240, 248, 252, 255}).Draw(t, "alphabet"), Seed: rapid.Uint64().Draw(t, "rawseed")}
+			return gen.Seg{Kind: "random", Len: rapid.IntRange(lo, hi).Draw(t, "rawlen"), K: rapid.SampledFrom([]int{0, 0, 0, 230, 232, 234, 236, 238, 240, 242, 246, 252}).Draw(t, "alphabet"), Seed: rapid.Uint64().Draw(t, "rawseed")}
 		}
 		txt := func() gen.Seg {
 			return gen.Seg{Kind: "text", K: 4, Len: rapid.IntRange(300, 30000).Draw(t, "txtlen"), Seed: rapid.Uint64().Draw(t, "txtseed")}
